@@ -326,25 +326,14 @@ func (g *gate) Copy(src, dst string) error {
 	return err
 }
 
-// sorted views of the parked calls (deterministic order: by decoded ids)
-func lessIDs(a, b []uint64) bool {
-	for i := 0; i < len(a) && i < len(b); i++ {
-		if a[i] != b[i] {
-			return a[i] < b[i]
-		}
-	}
-	return len(a) < len(b)
-}
+// parked calls in arrival order (deterministic: the harness lets every goroutine settle after each step)
 func (g *gate) parked(write bool) []*call {
 	g.mu.Lock()
 	defer g.mu.Unlock()
-	src := g.removes
 	if write {
-		src = g.writes
+		return append([]*call(nil), g.writes...)
 	}
-	out := append([]*call(nil), src...)
-	sort.SliceStable(out, func(i, j int) bool { return lessIDs(out[i].ids, out[j].ids) })
-	return out
+	return append([]*call(nil), g.removes...)
 }
 func (g *gate) releaseCall(c *call, perform bool) {
 	g.mu.Lock()
